@@ -233,6 +233,10 @@ func genSpec(h *vh.H) *Spec {
 		}
 	}
 
+	if nSchemas > 1 && h.Chance(1, 4) {
+		s.Extra = 1 + h.Rng.IntN(nSchemas-1)
+	}
+
 	// services
 	nServices := h.Rng.IntN(3)
 	if nSchemas == 0 || h.Chance(1, 2) {
